@@ -6,6 +6,7 @@ import traceback
 
 from .model import Program, AnalysisError, Inconclusive
 from .resolve import Resolver
+from .norm import normalize_calls
 from .excflow import ExcFlow
 from .effects import Effects
 
@@ -48,6 +49,7 @@ class Ctx:
     def __init__(self, sources=None, tier="quick"):
         self.P = Program(sources) if sources is not None else Program.from_repo()
         self.R = Resolver(self.P)
+        self.calls_normalised = normalize_calls(self.P, self.R)
         self._X = None
         self.E = Effects(self.P, self.R)
         self.tier = tier
